@@ -2,6 +2,13 @@
    Numbers are hex on the wire; inside they are the extracted [z] (zarith only converts). *)
 module BZ = Z
 open Model
+type string = Stdlib.String.t        (* Model.string is Coq's string (extracted as an inductive); keep OCaml's name for OCaml's *)
+let coq_of_char (c : char) : ascii =
+  let n = Char.code c in let b i = (n lsr i) land 1 = 1 in Ascii (b 0, b 1, b 2, b 3, b 4, b 5, b 6, b 7)
+let char_of_coq (Ascii (b0, b1, b2, b3, b4, b5, b6, b7)) : char =
+  let v b i = if b then 1 lsl i else 0 in Char.chr (v b0 0 + v b1 1 + v b2 2 + v b3 3 + v b4 4 + v b5 5 + v b6 6 + v b7 7)
+let rec coqstr_of (x : string) (i : int) : Model.string = if i >= String.length x then EmptyString else String (coq_of_char x.[i], coqstr_of x (i + 1))
+let rec ocamlstr_of (s : Model.string) : string = match s with EmptyString -> "" | String (c, r) -> String.make 1 (char_of_coq c) ^ ocamlstr_of r
 
 let rec pos_of_bz (n : BZ.t) : positive =
   if BZ.equal n BZ.one then XH
@@ -68,6 +75,44 @@ module Monitor_glue = struct
     fun a -> let d = BZ.sub (bz_of_z a) (bz_of_z sTACK) in
       if BZ.sign d >= 0 && BZ.lt d (BZ.of_int 8) then bytes.(BZ.to_int d) else m a
 end
+
+(* ---- types (compact syntax of tools/gen_sigfam.py) ---- *)
+let parse_ty (s : string) : ty =
+  let n = String.length s in
+  let pos = ref 0 in
+  let peek () = if !pos < n then s.[!pos] else '\000' in
+  let adv () = incr pos in
+  let expect c = if peek () = c then adv () else failwith (Printf.sprintf "type syntax: expected %c at %d in %s" c !pos s) in
+  let ident () = let st = !pos in while !pos < n && (match s.[!pos] with '(' | ')' | ';' -> false | _ -> true) do adv () done; String.sub s st (!pos - st) in
+  let coqstr (x : string) = coqstr_of x 0 in
+  let rec ty () : ty =
+    match peek () with
+    | 'p' -> adv (); expect '('; let nm = ident () in let args = rest () in Path (coqstr nm, args)
+    | 'l' -> adv (); Life
+    | 'r' -> adv (); let lt = peek () = '1' in adv (); let m = peek () = '1' in adv (); expect '('; let t = ty () in expect ')'; Ref (lt, m, t)
+    | 'q' -> adv (); let m = peek () = '1' in adv (); expect '('; let t = ty () in expect ')'; Ptr (m, t)
+    | 't' -> adv (); expect '('; if peek () = ')' then (adv (); Tup []) else (let a = ty () in Tup (a :: rest ()))
+    | 's' -> adv (); expect '('; let t = ty () in expect ')'; Slice t
+    | 'a' -> adv (); let st = !pos in while peek () <> '(' do adv () done; let k = int_of_string (String.sub s st (!pos - st)) in expect '('; let t = ty () in expect ')'; Array (t, nat_of_int k)
+    | 'n' -> adv (); Never
+    | 'f' -> adv (); let u = peek () = '1' in adv (); expect '('; let abi = ident () in expect ';'; let ret = ty () in let args = rest () in
+             Fn (u, (if abi = "-" then None else Some (coqstr abi)), args, ret)
+    | c -> failwith (Printf.sprintf "type syntax: unexpected %c at %d in %s" c !pos s)
+  and rest () : ty list = (* after the first component: (;ty)* ')' *)
+    if peek () = ')' then (adv (); []) else (expect ';'; let t = ty () in t :: rest ()) in
+  ty ()
+let ocamlstr (l : Model.string) = ocamlstr_of l
+let render (ts : tok list) : string =
+  let rec go = function
+    | [] -> ""
+    | TComma :: (TRP :: _ as r) -> "," ^ go r
+    | TLife :: ((TGt | TComma) :: _ as r) -> "'_" ^ go r
+    | [TLife] -> "'_"
+    | t :: r -> (match t with
+        | TId s -> ocamlstr s | TLt -> "<" | TGt -> ">" | TComma -> ", " | TAmp -> "&" | TLife -> "'_ " | TMut -> "mut " | TConst -> "const " | TStar -> "*"
+        | TLP -> "(" | TRP -> ")" | TLB -> "[" | TRB -> "]" | TSemi -> "; " | TNum k -> string_of_int (int_of_nat k) | TArrow -> " -> " | TFn -> "fn"
+        | TUnsafe -> "unsafe " | TExtern s -> "extern \"" ^ ocamlstr s ^ "\" " | TBang -> "!") ^ go r in
+  go ts
 
 (* ---- histories ---- *)
 let split c s = if s = "" || s = "-" then [] else String.split_on_char c s
@@ -230,6 +275,13 @@ let handle (t : string list) : string =
         | None -> Printf.sprintf "STUCK %s" (hz st.apc)
         | Some i -> go (fuel - 1) (aexec st i) in
     go 8 { apc = zh entry; ax = regs0; am = m }
+  (* tyname <ty> : the model's rendering of type_name *)
+  | ["tyname"; t] -> render (print (parse_ty t))
+  (* gate <expected-ty|-> <got-ty|-> : the type-checked installation gate; "-" = the empty signature of the unchecked macros *)
+  | ["gate"; e; g] ->
+    let f x = if x = "-" then [] else print (parse_ty x) in
+    (match exec_gate (f e) (f g) with Accept -> "A" | RefuseSig -> "S" | RefuseBool -> "B")
+  | ["boolgate"; t] -> Printf.sprintf "%s pinned=%s" (if accepts_bool (print (parse_ty t)) then "A" else "B") (if accepts_bool_pinned (print (parse_ty t)) then "A" else "B")
   (* count <N> <panicking 0|1> <schedule: comma-separated <thread>r (the atomic RMW of a matching call) | <thread>l (a local step)> *)
   | ["count"; n; pk; sched] ->
     let sch = List.map (fun tk -> let l = String.length tk in
